@@ -364,7 +364,8 @@ def type_boundaries(run: Run, tbl, formula):
         a = pyside.atom_of(k, tbl)
         for label, c in (("numpy.float64", np.float64(2.0)), ("numpy.int64", np.int64(3)), ("1-element array", np.array([2.0]))):
             try:
-                g = formula([(c, a), (1, pyside.atom_of((8, 0, 0), tbl)), (c, a)])
+                other = pyside.atom_of((8, 0, 0) if k != (8, 0, 0) else (26, 0, 0), tbl)
+                g = formula([(c, a), (1, other), (c, a)])
                 first = float(np.ravel(g.atoms[a])[0])
                 second = float(np.ravel(g.atoms[a])[0])
                 struct_count = float(np.ravel(g.structure[0][0])[0])
